@@ -35,6 +35,8 @@ RULE = ('program = class (LockedMachine / LockedHierarchicalMachine), machine_co
         'instrumented user contexts), 1-5 model objects (event targets with 0-2 instrumented, possibly shared, model '
         'contexts; spare models, registered or not), a 3-state machine with 2 events, 2-4 threads x 1-3 calls: events (via '
         'model.trigger or the event method) on shared/distinct models, set_state, add_transition, add_states, '
+        'the public methods machine.callback(f, event_data) / machine.callbacks([f..], event_data) called directly (as a Timeout '
+        'state\'s timer thread does; f is a recording yield point), '
         'add_model with LISTS (a registered model first / last / repeated inside the list, new models, with and without '
         'model_context, bare object or list) and remove_model; callbacks (prepare_event/before/after/finalize) raise or '
         'call the machine again (nested events on any model, set_state, add_transition; depth <= 2). Streams: std (55%%: '
@@ -55,7 +57,8 @@ RULE = ('program = class (LockedMachine / LockedHierarchicalMachine), machine_co
         'states / machine.models / states / transitions / model_context_map, all-done flag, serial-equivalence flag, '
         'left-the-envelope flag. Oracle on the implementation alone: no overlap, serial replay, contexts held in the order '
         'CONFIGURED by the add_model/remove_model calls completed so far (an independent reading of what they configure), '
-        'final model_context_map = that configuration. Non-trivial: the schedule produced at least one blocked attempt '
+        'final model_context_map = that configuration. Extra check on every run: every public method of both classes, '
+        'enumerated by reflection, enters the machine contexts when called from a thread that is not inside. Non-trivial: the schedule produced at least one blocked attempt '
         '(real contention) or a nested call; distinct by case hash.' % SCHEDULES_PER_PROGRAM)
 ASSUMPTIONS = [
     'PARTIAL: threading.Lock, threading.get_ident and the GIL are assumed to behave as the mutex / thread identity / '
@@ -177,6 +180,11 @@ def gen_program(rng, p):
                     spec[5].append([slot2, 1, 0])
                 spec[5].sort()
             return spec[0]
+        if depth == 0 and x < 0.66:
+            # the PUBLIC methods machine.callback(func, event_data) / machine.callbacks(funcs, event_data) called
+            # directly from a thread (as the Timer thread of a Timeout state does): a machine-method call that runs
+            # user callables
+            return spec_new(6, rng.choice(targets), rng.choice([0, 0, 1, 2]))[0]
         if x < 0.72:
             return spec_new(1, rng.choice(targets), rng.choice(state_pool))[0]
         if x < 0.82:
@@ -541,6 +549,14 @@ class Run(object):
             f = lambda: m.add_transition('e%d' % a, 's%d' % b, 's%d' % c)   # noqa
         elif kind == 3:
             f = lambda: m.add_states('s%d' % a)                  # noqa
+        elif kind == 6:
+            from transitions.core import EventData
+            ed = EventData(None, None, m, self.models[a], args=(cid,), kwargs={})
+            fn = self.callback(4)
+            if b == 0:
+                f = lambda: m.callback(fn, ed)                   # noqa
+            else:
+                f = lambda: m.callbacks([fn] * b, ed)            # noqa
         elif kind == 4:
             f = lambda: m.remove_model(objs)                     # noqa
         elif mc:
@@ -936,7 +952,8 @@ def stats(case, obs, dist):
         if any(x[0] == 4 and x[3][0] == 1 for x in log):
             inc('schedules_with_raising_call')
         kinds = set(c[1] for c in case['calls'])
-        for k, n in ((1, 'set_state'), (2, 'add_transition'), (3, 'add_states'), (4, 'remove_model'), (5, 'add_model')):
+        for k, n in ((1, 'set_state'), (2, 'add_transition'), (3, 'add_states'), (4, 'remove_model'), (5, 'add_model'),
+                     (6, 'direct_callback_or_callbacks')):
             if k in kinds:
                 inc('cases_with_' + n)
 
@@ -973,17 +990,77 @@ def _shrink_candidates(case):
             yield c
 
 
+class _Probe(object):
+    """machine context that records which thread entered it"""
+
+    def __init__(self):
+        self.entered = []
+
+    def __enter__(self):
+        self.entered.append(threading.get_ident())
+
+    def __exit__(self, *exc):
+        return False
+
+
+def public_methods_enter_contexts():
+    """Every PUBLIC method of the locked classes - enumerated by reflection over the class, not from a list - called
+    from a thread that is not inside the machine must enter the machine contexts before anything else happens (the
+    call is made without arguments: whatever the method then does or raises, _locked_method enters first)."""
+    import inspect
+    flat._import_transitions()
+    missing, counted = [], 0
+    for cname in CLASSES:
+        cls = flat.get_class(cname)
+        names = []
+        for n in dir(cls):
+            if n.startswith('_'):
+                continue
+            raw = inspect.getattr_static(cls, n)
+            if inspect.isfunction(raw) or isinstance(raw, classmethod):
+                names.append(n)
+        for n in sorted(names):
+            probe = _Probe()
+            mo = Model()
+            m = cls(model=mo, states=['A', 'B'], initial='A', auto_transitions=False, machine_context=[probe],
+                    transitions=[['go', 'A', 'B']])
+            del probe.entered[:]
+            box = []
+
+            def body():
+                try:
+                    getattr(m, n)()
+                except BaseException:  # noqa: wrong arguments etc. - only the entering matters
+                    pass
+                box.append(threading.get_ident())
+            th = threading.Thread(target=body)
+            th.daemon = True
+            th.start()
+            th.join(5)
+            counted += 1
+            if not box or box[0] not in probe.entered:
+                missing.append('%s.%s' % (cname, n))
+    ok = not missing
+    payload = {} if ok else dict(kind='oracle', case=dict(public_methods_not_entering_the_machine_contexts=missing),
+                                 failing_clause='public method(s) run without the machine contexts when called from '
+                                                'another thread: %s' % ', '.join(missing))
+    return ('every_public_method_enters_the_machine_contexts', ok,
+            dict(methods_checked=counted, classes=list(CLASSES), not_locked=missing), payload)
+
+
 def extra_checks(tier, seed):
-    """thorough tier: the extracted OCaml model against vm_compute inside coqc on a sample (extraction cross-check)"""
+    """every tier: reflection over the public methods; thorough tier: the extracted OCaml model against vm_compute
+    inside coqc on a sample (extraction cross-check)"""
+    out = [public_methods_enter_contexts()]
     if tier != 'thorough':
-        return []
+        return out
     cases = gen_batch(seed + 7, 50, 'quick')[::2]
     encs = [enc(c) for c in cases]
     try:
         a = F.run_model(KIND, encs)
         b = F.run_model_vm(str(KIND), encs, 'c06')
     except Exception as e:  # noqa
-        return [('extraction_cross_check', False, dict(error=str(e)[-800:]),
+        return out + [('extraction_cross_check', False, dict(error=str(e)[-800:]),
                  dict(kind='correspondence', correspondence='extraction_C06', error=str(e)[-2000:]))]
     ok = a == b
     bad = {}
@@ -992,4 +1069,4 @@ def extra_checks(tier, seed):
         k = k[0] if k else 0
         bad = dict(kind='correspondence', correspondence='extraction_C06', case=cases[k],
                    ocaml=a[k] if k < len(a) else None, vm_compute=b[k] if k < len(b) else None)
-    return [('extraction_cross_check', ok, dict(cases=len(cases), level='OCaml driver output = vm_compute output'), bad)]
+    return out + [('extraction_cross_check', ok, dict(cases=len(cases), level='OCaml driver output = vm_compute output'), bad)]
